@@ -20,7 +20,7 @@ RULE = ("one case = one operation line: (license version + secret, salt, issued 
         "bit flip of the 24 cipher bytes, XOR masks (permission byte, target hash -> hash of another channel, bit-path, "
         "expiry, signature/contract/master/salt bytes, dense and sparse random), substitution of every character position "
         "by alphabet / non-alphabet bytes, character swaps, 8-byte block swaps / copies, cut-and-paste of blocks of two "
-        "issued keys, truncation / extension / unrelated strings. non-trivial = the issued key or the modified string is "
+        "issued keys, truncation / extension / unrelated strings; salts: twelve keys issued by the broker's own keygen do not share one salt. non-trivial = the issued key or the modified string is "
         "granted something on the probe set and the line is distinct")
 TRUSTED = ["x/crypto/salsa20/salsa transcribed as Emitter.Cipher.hsalsa20/salsaBlock (the malleability theorems quantify over every keystream)",
            "encoding/base64 RawURLEncoding transcribed as b64Encode",
@@ -210,7 +210,9 @@ def gen(rng, tier):
             if rng.randrange(4):
                 q[0:2] = p[0:2]          # same salt: v3 then shows q XOR p as well
             ops.append("shape %s %s %s" % (lic, hx(bytes(p)), hx(bytes(q))))
-    # malformed stream
+    for lic in lics:
+        ops.append("salts %s 12" % lic)
+    # malformed stream    # malformed stream
     for i in range(budget(tier, 40, 1000)):
         lic = rng.choice(lics)
         ops.append("tamper %s %s %s|%d|0 set:%s %s" % (lic, rng.choice(SALTS), rng.choice(TARGETS), rng.getrandbits(8),
